@@ -621,6 +621,8 @@ def case_from_json(cj: dict) -> 'campaign.Case':
 
 def run_replay(chk: core.Check, path: str, exe: str) -> int:
     doc = json.load(open(path, encoding='utf-8'))
+    if doc.get('case', {}).get('op') == 'hist':
+        return campaign.run_replay(chk, 'des', path)       # histories are replayed by the shared engine
     if 'case' not in doc or 'files' not in doc or 'pair' not in doc:
         print('replay: no failing input recorded (%s)' % doc.get('what', 'broken obligation'))
         res = core.coq_check(chk.prop, [])
@@ -761,6 +763,17 @@ def run(chk: core.Check, trusted: typing.List[str], replay: typing.Optional[str]
             if len(samples) < 40:
                 samples.append({'request': c.req[:300], 'model': c.expected[:200], 'tags': c.tags})
 
+        # round trips ACROSS calls in one process (Python): earlier fragments / decoded objects kept alive, arrays written in
+        # place between calls, earlier objects re-serialized after later calls; every step against the single-call answer
+        if not fails:
+            hist = campaign.run_histories(chk.rng, prep, stats, per_type=1 if chk.tier == 'quick' else 4)
+            if hist:
+                rep = dict(hist[0])
+                rep.update({'failure_kind': 'history', 'broken': broken,
+                            'what': 'results of successive (de)serialization calls in one process influence each other (aliasing): '
+                                    'decode(encode(v)) / re-encode of an earlier object no longer agree after later calls'})
+                chk.violation(rep, found_input=True)
+                reported = True
         if fails:
             # prefer a genuine pair disagreement, then an own-chain failure, then a model disagreement
             order = {'pair': 0, 'chain': 1, 'model': 2}
